@@ -3917,3 +3917,240 @@ Proof.
      unfold PP'; cbn [pt_rels with_rels]; apply related_part_app_old; exact H2|].
   all: eapply rp1; [apply (pres_reach T _ HIE)|exact HPD|eapply part_with_reltype_target; exact Hpw].
 Qed.
+
+Lemma rel_facts_targets x rs rid t q : rel_facts x rs rid t (TInt q) ->
+  forall q', In q' (int_targets rs) -> In q' (int_targets (pt_rels x)) \/ q' = q.
+Proof.
+  intros ([->|[-> _]] & _) q' Hq'; auto. rewrite int_targets_app in Hq'. apply in_app_or in Hq' as [H|H]; auto.
+  simpl in H. destruct H as [<-|[]]. auto.
+Qed.
+
+Lemma good_with_notes n x b : good_part n x -> good_part n (with_notes x b).
+Proof. intros [H1 H2 H3 H4 H5 H6 H7 H8 H9 H10]. constructor; auto. Qed.
+
+Lemma good_new_notes n name : Opc.part_name name ->
+  good_part n (with_slots (new_part name ct_notes_slide 0) [(None, None)]).
+Proof.
+  intros H. constructor; cbn; auto; try (intros; contradiction).
+  - constructor.
+  - intros E. exfalso. revert E. vm_compute. discriminate.
+Qed.
+
+Lemma tp_notes_known : In tp_notes_slide known_tps. Proof. simpl; tauto. Qed.
+Lemma ct_notes_new : In ct_notes_slide new_part_cts. Proof. simpl; tauto. Qed.
+Lemma rt_nm_ne_master : rt_notes_master <> rt_slide_master. Proof. vm_compute; discriminate. Qed.
+Lemma rt_ns_ne_master : rt_notes_slide <> rt_slide_master. Proof. vm_compute; discriminate. Qed.
+
+Definition notes_post (s : state) (np : nat) (s1 : state) : Prop :=
+  st_pres s1 = st_pres s /\ st_slides s1 = st_slides s /\ (forall tp, listed s tp -> listed s1 tp) /\
+  exists nx, editable s1 np nx /\ pt_ct nx = ct_notes_slide.
+
+Lemma MH_notes T s sp : tables_ok T -> Inv T s -> slidep s sp -> MH T (m_notes sp) s (fun np s1 => notes_post s np s1).
+Proof.
+  intros HT HI Hs. pose proof (inv_wfg T s HI) as Hw.
+  destruct (slidep_editable s sp Hs) as (x & He & Ec & Hr). pose proof He as (Hx & Hnp & _).
+  pose proof (editable_not_master _ _ _ He) as Hnm. pose proof (getp_lt s sp x Hx) as Hsplt.
+  unfold m_notes.
+  apply (MH_bind T _ _ s (fun y s1 => y = x /\ s1 = s)); [apply (MH_part T s sp x); auto|]. intros y s1 _ [-> ->].
+  destruct (part_with_reltype rt_notes_slide (pt_rels x)) as [p|e] eqn:Epw.
+  - (* the slide has a notes slide *)
+    apply (MH_bind T _ _ s (fun _ s1 => s1 = s /\ exists nx, getp s p = Some nx /\ pt_ct nx = ct_notes_slide)).
+    { apply MH_class; auto. intros nx Hnx Ect. split; eauto. }
+    intros [] s1 _ (-> & nx & Hnx & Ect).
+    assert (Hpnp : p <> st_pres s) by (eapply class_not_pres; eauto; simpl; tauto).
+    assert (Hpsp : p <> sp).
+    { intros ->. rewrite Hx in Hnx. injection Hnx as <-. rewrite Ec in Ect. revert Ect. vm_compute. discriminate. }
+    destruct (pt_notes x).
+    + apply (MH_bind T _ _ s (fun _ s1 => s1 = s)); [apply MH_ret; auto|]. intros [] s1 _ ->. apply MH_ret; auto.
+      split; [reflexivity|]. split; [reflexivity|]. split; [auto|]. exists nx. split; [split; auto|auto].
+    + assert (HI' : Inv T (setp s sp (with_notes x true))).
+      { apply (inv_setp T s sp x _ []); auto; try (intros; contradiction). apply good_with_notes. apply (iv_parts T s HI sp x Hx). }
+      apply (MH_bind T _ _ s (fun _ s1 => s1 = setp s sp (with_notes x true))); [apply MH_setp; auto|].
+      intros [] s1 _ ->. apply MH_ret; auto.
+      split; [reflexivity|]. split; [reflexivity|]. split; [intros tp Htp; apply listed_setp; auto|].
+      exists nx. split; [|auto]. split; [rewrite getp_setp_other; auto|]. split; auto.
+  - destruct (pt_notes x) eqn:Enotes; [apply MH_fail; auto|].
+    destruct e; try (apply MH_fail; exact HI);
+    ( apply (MH_bind T _ _ s _ _ (MH_notes_master T s HT HI)); intros nm s1 HI1 (P1 & P2 & P3 & P4 & P5 & Hrnm);
+      assert (Hx1 : getp s1 sp = Some x) by (rewrite P4; auto);
+      assert (Hnp1 : sp <> st_pres s1) by (rewrite P1; exact Hnp);
+      apply (MH_bind T _ _ s1 _ _ (MH_next_partname T s1 tp_notes_slide HI1 tp_notes_known)); intros nname s2 _ (-> & Hfn & kn & ->);
+      set (NP := with_slots (new_part (Ids.tmpl_apply (fst tp_notes_slide) (snd tp_notes_slide) kn) ct_notes_slide 0) [(None, None)]);
+      set (np := length (st_parts s1));
+      destruct (tp_name_facts tp_notes_slide kn tp_notes_known) as [Hpn Hdn];
+      apply (MH_bind T _ _ s1 (fun a s2 => a = np /\ s2 = addp s1 NP));
+      [ apply MH_new; [exact HT|exact HI1|apply good_new_notes; exact Hpn|reflexivity|split; reflexivity] | ];
+      intros a s2 HI2 [-> ->]; set (sA := addp s1 NP) in * ).
+    all: pose proof (inv_wfg T s1 HI1) as Hw1.
+    all: assert (HlenA : length (st_parts sA) = S np) by (unfold sA, addp; cbn [st_parts with_parts]; rewrite app_length; simpl; unfold np; lia).
+    all: assert (HeA : ext_unreach s1 sA) by (apply (ext_addp T s1 NP HI1)).
+    all: assert (Hnr_np : ~ reachP sA np) by (intros H; apply (ext_reach T s1 sA HI1 HeA) in H; pose proof (reachP_lt s1 Hw1 np H); unfold np in *; lia).
+    all: assert (HNPA : getp sA np = Some NP) by apply getp_app_new.
+    all: assert (Hnp_np : np <> st_pres sA) by (cbn; destruct (iv_pres T s1 HI1) as (pp1 & Hpp1 & _); pose proof (getp_lt s1 _ pp1 Hpp1); unfold np; lia).
+    all: assert (Hnmlt : nm < length (st_parts s1)) by (apply (reachP_lt s1 Hw1); exact Hrnm).
+    all: assert (Hsplt1 : sp < length (st_parts s1)) by lia.
+    all: apply (MH_bind T _ _ sA (fun rid s3 => exists rs, s3 = setp sA np (with_rels NP rs) /\ rel_facts NP rs rid rt_notes_master (TInt nm)));
+      [ apply (MH_relate_int T sA np NP rt_notes_master nm []); auto; try (intros; contradiction);
+        [ cbn; apply ct_notes_ne_master | apply rt_nm_ne_master | rewrite HlenA; lia ] | ].
+    all: intros rid1 s3 HI3 (rs1 & -> & F1); set (sB := setp sA np (with_rels NP rs1)) in *.
+    all: assert (Hnr_npB : ~ reachP sB np) by
+           (intros H; assert (HeB : ext_unreach s1 sB) by (eapply ext_trans; [exact HI1|exact HeA|apply ext_setp_unreach; exact Hnr_np]);
+            apply (ext_reach T s1 sB HI1 HeB) in H; pose proof (reachP_lt s1 Hw1 np H); unfold np in *; lia).
+    all: assert (HNPB : getp sB np = Some (with_rels NP rs1)) by (unfold sB; apply getp_setp_same; rewrite HlenA; lia).
+    all: apply (MH_bind T _ _ sB (fun rid s4 => exists rs, s4 = setp sB np (with_rels (with_rels NP rs1) rs) /\
+                                                 rel_facts (with_rels NP rs1) rs rid rt_slide (TInt sp)));
+      [ apply (MH_relate_int T sB np (with_rels NP rs1) rt_slide sp []); auto; try (intros; contradiction);
+        [ cbn; apply ct_notes_ne_master | apply rt_slide_ne_master | unfold sB; rewrite length_setp, HlenA; lia ] | ].
+    all: intros rid2 s4 HI4 (rs2 & -> & F2); set (sC := setp sB np (with_rels (with_rels NP rs1) rs2)) in *.
+    all: set (NP2 := with_rels (with_rels NP rs1) rs2) in *.
+    all: assert (HeC : ext_unreach s1 sC) by
+           (eapply ext_trans; [exact HI1| |apply ext_setp_unreach; exact Hnr_npB];
+            eapply ext_trans; [exact HI1|exact HeA|apply ext_setp_unreach; exact Hnr_np]).
+    all: assert (HNPC : getp sC np = Some NP2) by (unfold sC; apply getp_setp_same; unfold sB; rewrite length_setp, HlenA; lia).
+    all: assert (Hold : forall q, q <> np -> q < length (st_parts s1) -> getp sC q = getp s1 q) by
+           (intros q Hq Hl; unfold sC; rewrite getp_setp_other by auto; unfold sB; rewrite getp_setp_other by auto;
+            unfold sA, addp; apply getp_app_old; exact Hl).
+    all: assert (Htg2 : forall q, In q (int_targets (pt_rels NP2)) -> q = nm \/ q = sp) by
+           (intros q Hq; unfold NP2 in Hq; cbn [pt_rels with_rels] in Hq;
+            destruct (rel_facts_targets _ _ _ _ _ F2 q Hq) as [H|H]; auto; cbn [pt_rels with_rels] in H;
+            destruct (rel_facts_targets _ _ _ _ _ F1 q H) as [H'|H']; auto; destruct H').
+    all: assert (HxC : getp sC sp = Some x) by (rewrite Hold; auto; unfold np; lia).
+    all: apply (MH_bind T _ _ sC (fun _ s5 => s5 = sC)); [apply MH_class; auto|]; intros [] s5 _ ->.
+    all: assert (B1 : sp <> st_pres sC) by (change (st_pres sC) with (st_pres s1); exact Hnp1).
+    all: assert (B2 : np < length (st_parts sC)) by (unfold sC, sB; rewrite !length_setp, HlenA; lia).
+    all: assert (B3 : ~ In sp [np]) by (intros [E'|[]]; unfold np in E'; lia).
+    all: assert (B4 : reachP sC np \/ In np [np] \/ ~ reachP sC sp) by (right; left; simpl; auto).
+    all: assert (B5 : forall n y q', In n [np] -> getp sC n = Some y -> In q' (int_targets (pt_rels y)) -> reachP sC q' \/ In q' [np]) by
+           (intros n y q' [<-|[]] Hy Hq'; rewrite HNPC in Hy; injection Hy as <-;
+            destruct (Htg2 q' Hq') as [-> | ->]; left;
+            [apply (ext_reach_back s1 sC HeC); exact Hrnm
+            |apply (ext_reach_back s1 sC HeC); apply (listed_reach T s1 sp HI1); apply P5; destruct Hs as (_ & _ & _ & _ & Hl); exact Hl]).
+    all: assert (B6 : forall n y, In n [np] -> ~ reachP sC n -> getp sC n = Some y ->
+              new_ok T sC y /\ baseURI (pt_name y) <> s_slides_dir /\ pt_name y <> n_notes_master /\ pt_name y <> n_core) by
+           (intros n y [<-|[]] _ Hy; rewrite HNPC in Hy; injection Hy as <-;
+            destruct (other_dirs_plain _ Hdn) as (D1 & D2 & D3);
+            split; [constructor; [change (pt_name NP2) with (Ids.tmpl_apply (fst tp_notes_slide) (snd tp_notes_slide) kn); intros Hin; apply Hfn; eapply ext_names; eauto
+                                  |change (pt_ct NP2) with ct_notes_slide; apply (tk_bin T HT); apply ct_notes_new]|];
+            change (pt_name NP2) with (Ids.tmpl_apply (fst tp_notes_slide) (snd tp_notes_slide) kn);
+            split; [exact D1|]; split; [intros E'; apply D2; rewrite E'; reflexivity|intros E'; apply D3; rewrite E'; reflexivity]).
+    all: assert (B7 : forall n m0 y z, In n [np] -> In m0 [np] -> n <> m0 -> ~ reachP sC n -> ~ reachP sC m0 ->
+              getp sC n = Some y -> getp sC m0 = Some z -> pt_name y <> pt_name z) by
+           (intros n m0 y z [<-|[]] [<-|[]] Hne; contradiction).
+    all: apply (MH_bind T _ _ sC _ _ (MH_relate_int T sC sp x rt_notes_slide np [np] HT HI4 HxC B1 Hnm rt_ns_ne_master B2 B3 B4 B5 B6 B7)).
+    all: intros rid3 s5 HI5 (rs3 & -> & F3); set (sD := setp sC sp (with_rels x rs3)) in *.
+    all: assert (HxD : getp sD sp = Some (with_rels x rs3)) by (unfold sD; apply getp_setp_same; unfold sC, sB; rewrite !length_setp, HlenA; lia).
+    all: apply (MH_bind T _ _ sD (fun y s6 => y = with_rels x rs3 /\ s6 = sD)); [apply (MH_part T sD sp _ _ HI5 HxD); auto|]; intros y s6 _ [-> ->].
+    all: assert (HIE : Inv T (setp sD sp (with_notes (with_rels x rs3) true))) by
+           (apply (inv_setp T sD sp (with_rels x rs3) _ []); auto; try (intros; contradiction);
+            try (apply good_with_notes; apply (iv_parts T sD HI5 sp _ HxD)); try (change (st_pres sD) with (st_pres s1); exact Hnp1)).
+    all: apply (MH_bind T _ _ sD (fun _ s7 => s7 = setp sD sp (with_notes (with_rels x rs3) true))); [apply MH_setp; auto|]; intros [] s7 _ ->.
+    all: apply MH_ret; auto.
+    all: split; [exact P1|]; split; [exact P2|]; split.
+    all: try (intros tp Htp; apply listed_setp; [change (st_pres sD) with (st_pres s1); exact Hnp1|];
+              apply listed_setp; [change (st_pres sC) with (st_pres s1); exact Hnp1|];
+              destruct (P5 tp Htp) as (pp0 & rid0 & H1 & H2); exists pp0, rid0; split; [|exact H2];
+              change (st_pres sC) with (st_pres s1); rewrite Hold; [exact H1|intros E'; apply Hnp_np; rewrite <- E'; reflexivity|eapply getp_lt; exact H1]).
+    all: exists NP2; split; [|reflexivity]; split; [|split; [change (st_pres (setp sD sp (with_notes (with_rels x rs3) true))) with (st_pres s1); intros E'; apply Hnp_np; rewrite E'; reflexivity|right; reflexivity]].
+    all: rewrite getp_setp_other by (unfold np; lia); unfold sD; rewrite getp_setp_other by (unfold np; lia); exact HNPC.
+Qed.
+
+Lemma step_access_notes T s i : tables_ok T -> Inv T s -> Inv T (fst (step false T s (AccessNotes i))).
+Proof.
+  intros HT HI. cbn [step]. rewrite fst_fin. eapply MH_true.
+  apply (MH_bind T _ _ s _ (fun _ _ => True) (MH_slide T s i HT HI)). intros sp s1 HI1 [Hs _].
+  eapply MH_weaken; [apply (MH_notes T s1 sp HT HI1 Hs)|auto].
+Qed.
+
+Lemma step_set_notes_jump T s i k : tables_ok T -> Inv T s -> Inv T (fst (step false T s (SetNotesJump i k))).
+Proof.
+  intros HT HI. cbn [step]. rewrite fst_fin. eapply MH_true.
+  apply (MH_bind T _ _ s _ (fun _ _ => True) (MH_slide T s i HT HI)). intros sp s1 HI1 [Hs _].
+  apply (MH_bind T _ _ s1 _ _ (MH_notes T s1 sp HT HI1 Hs)). intros np s2 HI2 (P1 & P2 & P3 & nx & He & Ect).
+  pose proof He as (Hnx & _).
+  apply (MH_bind T _ _ s2 _ _ (MH_has_slot T s2 np nx 0 HI2 Hnx)). intros h s3 _ ->.
+  destruct h; [|apply MH_ret; auto].
+  assert (Hs2 : st_slides s2 = true) by (rewrite P2; apply (proj1 Hs)).
+  apply (MH_bind T _ _ s2 _ _ (MH_slide_again T s2 k HT HI2 Hs2)). intros tp s3 _ [-> Htp].
+  apply (MH_bind T _ _ s2 _ _ (MH_set_jump T s2 np nx 0 tp HT HI2 He (proj2 (proj2 (proj2 (proj2 Htp)))))).
+  intros [] s3 HI3 _. apply MH_ret; auto.
+Qed.
+
+Lemma step_clear_notes_jump T s i : tables_ok T -> Inv T s -> Inv T (fst (step false T s (ClearNotesJump i))).
+Proof.
+  intros HT HI. cbn [step]. rewrite fst_fin. eapply MH_true.
+  apply (MH_bind T _ _ s _ (fun _ _ => True) (MH_slide T s i HT HI)). intros sp s1 HI1 [Hs _].
+  apply (MH_bind T _ _ s1 _ _ (MH_notes T s1 sp HT HI1 Hs)). intros np s2 HI2 (P1 & P2 & P3 & nx & He & Ect).
+  pose proof He as (Hnx & _).
+  apply (MH_bind T _ _ s2 _ _ (MH_has_slot T s2 np nx 0 HI2 Hnx)). intros h s3 _ ->.
+  destruct h; [|apply MH_ret; auto].
+  apply (MH_bind T _ _ s2 _ _ (MH_clear T s2 np nx WClick 0 HT HI2 He)). intros [] s3 HI3 _. apply MH_ret; auto.
+Qed.
+
+(* ------------------------------------------------------------------------------ *)
+(** * C02_step, C02_reachable *)
+
+Theorem step_inv T s o : tables_ok T -> op_ok T o -> Inv T s -> Inv T (fst (step false T s o)).
+Proof.
+  intros HT Ho HI. destruct o.
+  - apply step_access; auto.
+  - apply step_add_slide; auto.
+  - apply step_plain; auto.
+  - apply step_add_picture; auto.
+  - apply step_picture_bad; auto.
+  - apply step_insert_picture; auto.
+  - destruct Ho as [Hv Hp]. apply step_add_movie; auto.
+  - apply step_add_chart; auto.
+  - apply step_replace_data; auto.
+  - apply step_add_ole; auto.
+  - apply step_access_notes; auto.
+  - apply step_set_link; auto.
+  - apply step_clear_link; auto.
+  - apply step_read_link; auto.
+  - apply step_set_jump; auto.
+  - apply step_clear_jump; auto.
+  - apply step_set_notes_jump; auto.
+  - apply step_clear_notes_jump; auto.
+  - apply step_remove_layout; auto.
+  - apply step_core; auto.
+  - apply step_save; auto.
+Qed.
+
+Theorem run_inv T ops : tables_ok T -> Forall (op_ok T) ops -> forall s, Inv T s -> Inv T (run false T s ops).
+Proof.
+  intros HT. induction 1 as [|o ops Ho _ IH]; intros s HI; [exact HI|].
+  cbn [run fold_left]. apply IH. apply step_inv; auto.
+Qed.
+
+(** the outcomes of a history, with the state each operation ran in *)
+Fixpoint trace (T : tables) (s : state) (ops : list op) : list (state * outcome) :=
+  match ops with
+  | [] => []
+  | o :: r => let '(s1, out) := step false T s o in (s1, out) :: trace T s1 r
+  end.
+
+Lemma fin_not_saved {A} (f : A -> outcome) (m : M A) s s1 ph :
+  (forall a ph', f a <> Saved ph') -> fin f m s <> (s1, Saved ph).
+Proof.
+  intros Hf. unfold fin. destruct (m s) as [s' [a|e]]; intros H.
+  - injection H as _ E. exact (Hf a ph E).
+  - injection H as _ E. discriminate.
+Qed.
+
+Lemma saved_only_save T s o s1 ph : step false T s o = (s1, Saved ph) -> o = Save.
+Proof.
+  destruct o; cbn [step]; auto; intros H; exfalso; revert H; apply fin_not_saved; intros a ph';
+    try (destruct a; discriminate); try discriminate.
+  destruct a as [[v|]|]; discriminate.
+Qed.
+
+(** every package any save of any history writes is Closed *)
+Theorem every_save_closed T ops : tables_ok T -> Forall (op_ok T) ops -> forall s, Inv T s ->
+  forall s1 ph, In (s1, Saved ph) (trace T s ops) -> Closed s1 ph.
+Proof.
+  intros HT. induction 1 as [|o ops Ho _ IH]; intros s HI s1 ph Hin; [destruct Hin|].
+  cbn [trace] in Hin. destruct (step false T s o) as [s2 out] eqn:E.
+  assert (HI2 : Inv T s2) by (change s2 with (fst (s2, out)); rewrite <- E; apply step_inv; auto).
+  destruct Hin as [Hin|Hin]; [|eapply IH; eauto].
+  injection Hin as -> ->. pose proof (saved_only_save T s o s1 ph E) as ->.
+  cbn [step save_state negb] in E. injection E as <- <-. apply save_closed_aux; auto.
+Qed.
